@@ -36,20 +36,24 @@ type c08Case struct {
 	Variant  string     `json:"variant,omitempty"`
 }
 
-func c08Selftest(t *testing.T, w *c08World) {
+func c08Selftest(t *testing.T, r *ev.Run, w *c08World) {
+	w.soft = func(msg string) { r.NotExhaustive(msg) }
 	// vacuity guards: the reference fold accepts an honest instance, and it notices a phantom reference
 	in := w.fresh(0)
 	defer in.discard()
 	if j := in.judge(); len(j.Fails) != 0 {
-		t.Fatalf("harness: empty instance fails the reference fold: %s", j.Detail)
+		c08Report(r, "history", "live", j, c08Case{Part: "hist", Base: 0})
+		return
 	}
 	for _, n := range []string{"n()#0", "n(n()#0)#0", "n(n()#0)#1"} {
 		if err := in.apply(c08Event{Kind: "add", Name: n}); err != nil {
-			t.Fatalf("harness: valid add %s refused: %v", n, err)
+			r.Observation("valid-add-refused", map[string]any{"name": n, "err": err.Error()})
+			return
 		}
 	}
 	if j := in.judge(); len(j.Fails) != 0 || len(j.Names) != 3 {
-		t.Fatalf("harness: honest 3-transaction instance fails the reference fold: %v %s", j.Names, j.Detail)
+		c08Report(r, "history", "live", j, c08Case{Part: "hist", Base: 0, Hist: []c08Event{{Kind: "add", Name: "n()#0"}, {Kind: "add", Name: "n(n()#0)#0"}, {Kind: "add", Name: "n(n()#0)#1"}}})
+		return
 	}
 	in.st.xorTree.tree.Insert(hash.SHA256Sum([]byte("phantom")), 0)
 	if j := in.judge(); strings.Join(j.Fails, "+") != "xor" {
@@ -91,7 +95,7 @@ func TestVerifC08Hist(t *testing.T) {
 		lens = []int{0, rc.Base}
 	}
 	w := newC08World(t, lens...)
-	c08Selftest(t, w)
+	c08Selftest(t, r, w)
 
 	check := func(base int, in *c08Inst, hist []c08Event) {
 		key := ""
@@ -105,7 +109,7 @@ func TestVerifC08Hist(t *testing.T) {
 		if len(j.Fails) == 0 {
 			jr := in.judgeReloadedOpt(len(hist) == 0 || hist[len(hist)-1].valid())
 			c08Report(r, "history", "reloaded", jr, cs)
-			if len(jr.Fails) == 0 && jr.Digest != j.Digest {
+			if c08Differs(j, jr) {
 				r.Violation("C08|history|reloaded|differs-from-live", fmt.Sprintf("outputs after reopening the file differ from the live instance after %s", c08HistKey(base, hist)), cs)
 			}
 		}
@@ -270,7 +274,8 @@ func c08RunFaultCase(r *ev.Run, w *c08World, c c08Case) string {
 	outcome := c.Mode + "@" + at.Label()
 	if mode == fault.Stop {
 		if stopped == nil && !in.kv.Dead() {
-			w.t.Fatalf("harness: stop fired but the store is not dead")
+			w.trouble("a stop fired but the store is not dead (case skipped)")
+			return "skipped"
 		}
 		// the abandoned instance is closed, the file is opened by a fresh instance: the restart
 		in = in.reopen()
@@ -282,7 +287,7 @@ func c08RunFaultCase(r *ev.Run, w *c08World, c c08Case) string {
 		if !failed {
 			jr := in.judgeReloaded()
 			checkpoint("reloaded after the failed write", jr)
-			if !failed && jr.Digest != jl.Digest {
+			if !failed && c08Differs(jl, jr) {
 				failed = true
 				r.Violation("C08|"+scenario+"|"+class+"|reload-differs", "outputs after reopening the file differ from the live instance after the failed write", c)
 			}
@@ -300,7 +305,7 @@ func c08RunFaultCase(r *ev.Run, w *c08World, c c08Case) string {
 	in = in.reopen()
 	jr := in.judgeOpt(r.Thorough())
 	checkpoint("after the rest of the history and a restart", jr)
-	if !failed && jr.Digest != jl.Digest {
+	if !failed && c08Differs(jl, jr) {
 		failed = true
 		r.Violation("C08|"+scenario+"|"+class+"|reload-differs", "outputs after the final restart differ from the live instance", c)
 	}
@@ -341,7 +346,7 @@ func TestVerifC08Faults(t *testing.T) {
 		lens = []int{0, rc.Base}
 	}
 	w := newC08World(t, lens...)
-	c08Selftest(t, w)
+	c08Selftest(t, r, w)
 	if replay {
 		r.Eval(c08HistKey(rc.Base, rc.Hist))
 		r.Outcome(c08RunFaultCase(r, w, rc))
@@ -479,7 +484,7 @@ func TestVerifC08Sched(t *testing.T) {
 		lens = append(lens, s.base)
 	}
 	w := newC08World(t, lens...)
-	c08Selftest(t, w)
+	c08Selftest(t, r, w)
 	shard, nsh := r.Shard()
 	replaceHeldMutex, replaceCalls := 0, 0
 	nExec := 0
@@ -496,7 +501,10 @@ func TestVerifC08Sched(t *testing.T) {
 			}
 		}
 		phantom := hash.SHA256Sum([]byte("phantom-" + sc.name))
-		setup := func(x *sched.Exec) func(x *sched.Exec) {
+		// a deadlock or a panic of a thread is reported only when two replays of the same schedule show it again
+		confirming, confirmed := false, 0
+		var setup func(x *sched.Exec) func(x *sched.Exec)
+		setup = func(x *sched.Exec) func(x *sched.Exec) {
 			in := w.fresh(sc.base)
 			in.kv.VirtualLock(true)
 			in.kv.KeepTrace(false)
@@ -535,15 +543,36 @@ func TestVerifC08Sched(t *testing.T) {
 				x.Go("repair", func() { in.st.xorTreeRepair.checkPage() })
 			}
 			return func(x *sched.Exec) {
-				defer in.discard()
 				cs := c08Case{Part: "sched", Base: sc.base, Scenario: sc.name, Schedule: x.Choices()}
+				trouble, what := "", ""
 				for i, p := range x.Panics() {
 					if p != nil {
-						r.Violation("C08|sched|"+sc.name+"|panic", fmt.Sprintf("thread %d panicked: %v", i, p), cs)
+						trouble, what = "panic", fmt.Sprintf("thread %d panicked: %v", i, p)
 					}
 				}
 				if x.Deadlock {
-					r.Violation("C08|sched|"+sc.name+"|deadlock", "threads blocked for ever: "+strings.Join(x.Trace, " "), cs)
+					trouble, what = "deadlock", "threads blocked for ever: "+strings.Join(x.Trace, " ")
+				}
+				if trouble != "" {
+					// the instance is leaked: its threads may hold locks and an open transaction
+					if confirming {
+						confirmed++
+						return
+					}
+					confirming, confirmed = true, 0
+					for i := 0; i < 2; i++ {
+						sched.Explore(sched.Options{Replay: x.Choices(), MaxSteps: 5000}, setup)
+					}
+					confirming = false
+					if confirmed == 2 {
+						r.Violation("C08|sched|"+sc.name+"|"+trouble, what, cs)
+					} else {
+						r.NotExhaustive("a " + trouble + " in a schedule of " + sc.name + " did not reproduce (schedule skipped)")
+					}
+					return
+				}
+				defer in.discard()
+				if confirming {
 					return
 				}
 				r.Eval(sc.name + fmt.Sprint(x.Choices()))
@@ -554,7 +583,7 @@ func TestVerifC08Sched(t *testing.T) {
 				if len(j.Fails) == 0 && (sc.base < 64 || nExec%4 == 0) { // large bases: every 4th execution is also judged after a reload
 					jr := in.judgeReloaded()
 					c08Report(r, "sched", sc.name+"|reloaded", jr, cs)
-					if len(jr.Fails) == 0 && jr.Digest != j.Digest {
+					if c08Differs(j, jr) {
 						r.Violation("C08|sched|"+sc.name+"|reload-differs", "outputs after reopening the file differ from the live instance", cs)
 					}
 				}
@@ -577,7 +606,9 @@ func TestVerifC08Sched(t *testing.T) {
 			r.NotExhaustive("schedule exploration of " + sc.name + " stopped at " + res.Capped)
 		}
 		for _, e := range res.Errors {
-			t.Fatalf("scheduler machinery: scenario %s: %s", sc.name, e)
+			// divergence / horizon / self-check trouble of the explorer: the scenario's exploration is incomplete, nothing more
+			r.NotExhaustive("schedule exploration of " + sc.name + " stopped: explorer trouble")
+			r.AssumptionCheck("schedule explorer replays deterministically ("+sc.name+")", false, e)
 		}
 		_ = si
 	}
@@ -624,7 +655,7 @@ func TestVerifC08Repair(t *testing.T) {
 		t.Skip("replay case belongs to another part")
 	}
 	w := newC08World(t, append([]int{0}, bases...)...)
-	c08Selftest(t, w)
+	c08Selftest(t, r, w)
 	phantom := hash.SHA256Sum([]byte("phantom"))
 
 	type fcase struct {
@@ -651,7 +682,7 @@ func TestVerifC08Repair(t *testing.T) {
 		}
 		persist := func(s *state) {
 			if err := in.inner.Write(c08ctx, func(tx stoabs.WriteTx) error { return s.xorTree.writeWithoutLock(tx) }); err != nil {
-				t.Fatal(err)
+				w.trouble("the corrupted leaf could not be written")
 			}
 		}
 		switch place {
@@ -667,7 +698,10 @@ func TestVerifC08Repair(t *testing.T) {
 			in = in.reopen() // the corrupted leaf is what the node loads at start
 		}
 		if j := in.judge(); strings.Join(j.Fails, "+") != "xor" {
-			t.Fatalf("harness: corruption %s of page %d not visible before the repair (fails=%v)", c.Variant, c.Page, j.Fails)
+			// on the unchanged tree the injected corruption shows as an XOR mismatch and nothing else; anything else means the
+			// instance was not consistent to begin with, which is what the other parts report: no verdict from this case
+			w.trouble("an injected corruption was not visible as an XOR mismatch before the repair (cases skipped)")
+			return "skipped", nil
 		}
 		in.st.xorTreeRepair.circuitState = circuitRed
 		// without a fault the procedure cycles over all pages (and one more: the wrap-around); with a fault only the
